@@ -86,6 +86,7 @@ type ConcScenario struct {
 	Segmented  bool // client connections deliver one write per read
 	RealCookie bool // cookies are tokens minted by security.GeneratePAAToken and checked by security.CheckPAACookie (userinfo round trip to the scripted IdP is a scheduling point)
 	PostRead   bool // scheduling point after every gateway read on a client connection
+	ClientWindow int // > 0: gateway writes to a client block once that many bytes are unread
 	RoundRobin bool // default schedule advances the clients in lockstep (cyclic candidate order)
 	Deviation  bool // bound deviations from the default schedule instead of preemptions (multi-tunnel scenarios)
 	MaxSteps   int
@@ -423,6 +424,7 @@ func RunConc(sc ConcScenario, prefix []int, logOn bool) *ConcResult {
 		w := NewWorld()
 		w.Segmented = sc.Segmented
 		w.PostRead = sc.PostRead
+		w.ClientWindow = sc.ClientWindow
 		res.World = w
 		cfg := sc.Gw
 		if cfg.Hosts == nil {
